@@ -21,7 +21,7 @@ else:
 meta = {
     'property': prop,
     'variant': var,
-    'base_commit': '9c110f0 (snapshot); patch.diff applies to that tree',
+    'base_commit': os.environ.get('SEED_BASE', '/repo HEAD with the zz_verif_contracts.go files removed (tools/mkwt.sh); patch.diff applies to /repo HEAD'),
     'what_breaks': sm.get('what_breaks', seed_meta.get('what_breaks', '')),
     'needs_to_manifest': sm.get('needs_to_manifest', seed_meta.get('needs_to_manifest', '')),
     'files_changed': sm.get('files_changed', seed_meta.get('files_changed', [])),
